@@ -21,6 +21,7 @@ LEVEL_TEXT = ('Decides, for all paths / all cursor implementations: each primiti
               'only for name-like tokens, restore the position, and fold case on both sides; patterns take no case flag; '
               'configuration layers are applied in the documented order. The metamorphic relation on concrete texts is not '
               'decided.')
+TECHNIQUE += '; next_token guard contract over cursor states'
 LEVEL_NOTE = ('Abstraction for the next_token model: the three skip regexes match disjoint, maximal runs (each eat_* '
               'consumes the whole run of its kind and reports whether it consumed anything).')
 EXPLANATION = ('Static analysis of /repo sources, TatSu not imported. Primitives are executed abstractly with flags '
